@@ -7,6 +7,14 @@ CLAIMED = {
             "the incremental-construction clause is covered by C05's theorems; pytrie is third-party code modelled by its algorithm"),
     "C02": ("6 C02", "A_expand / A_expand_all / partition lemmas: expansion = split at the first delimiter, unique owning record, canonical URI prefix ++ identifier, for all strict converters, delimiters and strings, in every mode; expand_pair / expand_reference / expand_all / expand_pair_all likewise.",
             "standardize_identifier is the identity in the code and in the model"),
+    "C03": ("6 C03", "C03_lossless / C03_inverse_1 / C03_inverse_2 / C03_bijection_*: for every strict converter whose prefixes are delimiter-safe, compress is lossless (u in expand_all(compress u), expand(compress u) = standardize_uri u); on prefix-free maps compress and expand are mutually inverse on standard forms. The predicate P_C03 evaluates the same laws on the implementation's own answers.",
+            "P_C03 accepting the model on all valid cases is checked at run time (P(model) must be 1), not yet a theorem"),
+    "C06": ("6 C06", "C06_prefix / C06_curie / C06_uri (functional characterisation) and the idempotence / meaning-preservation theorems, for all strict converters; standardize_uri idempotence under prefix-freeness, with a vm_compute counterexample showing the hypothesis is needed.",
+            "P_C06 accepting the model on all valid cases is checked at run time, not yet a theorem"),
+    "C07": ("6 C07", "C07_is_uri_* / C07_is_curie_* / C07_parse / C07_uri_precedence / C07_compress_or_standardize / C07_expand_or_standardize: the derived operations are the stated compositions of the two primitive parsers for every strict converter and string.",
+            "P_C07 accepting the model on all valid cases is checked at run time, not yet a theorem"),
+    "C08": ("6 C08", "C08_modes_str / C08_modes_pair / C08_modes_strict_only / C08_no_other: for each of the 14 functions, default returns a value or None, passthrough returns the same value or the input, strict returns the same value or raises a library ValueError-derived error, and no other exception escapes; for all strict converters and all strings.",
+            "exceptions are compared by family (library ValueError-derived class defined in curies / anything else), not by exact subclass or message"),
 }
 NOT_YET = {}
 
